@@ -25,7 +25,7 @@ from typing import Any
 
 from detsim import env, gen, minimize, parseop, rng, runner, simfs
 from detsim.observe import exc_token, observe_chart
-from detsim.sched import HarnessError, Scheduler
+from detsim.sched import HarnessError, Scheduler, make_abort_exc
 
 PROP = "C17"
 LEVEL = "exploration"
@@ -48,7 +48,9 @@ ABORT_TARGETS = ["from_parsed_data", "from_chart_line", "from_chart_lines", "bui
                  "timestamp_at_tick", "_index_of_proximal_event", "__post_init__", "complex_sustain",
                  "_compute_", "__init__", "_refined_", "note_duration", "seconds_from", "from_file",
                  "_parse_data", "parse_data_from", "is_chord", "is_5_note", "<genexpr>", "<lambda>"]
-SUB_BATCHES = ["none", "none", "io", "eio", "abort", "abort", "cache_clear", "long"]
+SUB_BATCHES = ["none", "none", "io", "eio", "abort", "abort", "cache_clear", "long", "callerfault"]
+JUNK_LINES = ["free text", "", "{t} = N 8 0", "{t} = S 64 10", "{t} = E two words", "100% {t} %s",
+              "{t} = Q 1 2"]
 
 
 # ----------------------------------------------------------------------------------------------
@@ -83,7 +85,19 @@ def make_plan(seed: int, tier: str, index: int) -> dict[str, Any]:
                         small=True)
         docs.append(d)
         nl = g.choice(["\n", "\n", "\r\n"])
-        text = gen.render(d, newline=nl)
+        if g.random() < (0.7 if sub == "callerfault" else 0.25):
+            # unparsable lines in sync / events / instrument sections: the parse reports them, and
+            # the reports are part of what must not depend on history or schedule
+            secs = gen.sections(d)
+            for _ in range(g.randint(1, 4)):
+                si = g.randrange(1, len(secs))
+                if secs[si][0] in [u[0] for u in d["unknown"]]:
+                    continue
+                line = g.choice(JUNK_LINES).replace("{t}", str(g.choice([0, 7, 480, 99999])))
+                secs[si][1].insert(g.randint(0, len(secs[si][1])), line)
+            text = gen.render_sections(secs, newline=nl)
+        else:
+            text = gen.render(d, newline=nl)
         bom = g.random() < 0.2
         corpus.append({"id": i, "kind": "ok", "text": text, "bom": bom,
                        "headers": [t[0] for t in d["tracks"]], "resolution": d["resolution"]})
@@ -152,6 +166,29 @@ def make_plan(seed: int, tier: str, index: int) -> dict[str, Any]:
                 # targeted: k-th pre-emption point inside frames of a given family of functions
                 op["abort"]["in"] = f.choice(ABORT_TARGETS)
                 op["abort"]["at"] = f.choice([1, 1, 2, 3, 5, 8, 13, 30])
+    elif sub == "callerfault":
+        # faults thrown by caller-supplied objects in the middle of a parse: the application's
+        # log handler fails on the k-th record, the selection sequence raises on its k-th access,
+        # the reader raises from read()
+        for _ci, _k, op in f.sample(all_ops, min(len(all_ops), f.randint(1, 3))):
+            exc = f.choice(["SimAbort", "MemoryError", "MemoryError", "KeyboardInterrupt"])
+            kind = f.choice(["log", "log", "log", "select", "select", "reader"])
+            if kind == "log":
+                op["log_fault"] = {"at": f.choice([1, 1, 2, 3]), "exc": exc}
+            elif kind == "select":
+                if op.get("select") is None:
+                    c = corpus[op["text"]]
+                    pool = [list(gen.HEADERS[h]) for h in c["headers"]] or [list(gen.HEADERS["ExpertSingle"])]
+                    op["select"] = {"form": "list", "pairs": sorted(pool)[:f.randint(1, len(pool))]}
+                op["sel_fault"] = {"at": f.choice([1, 1, 2, 3, 5]), "exc": exc}
+            else:
+                if corpus[op["text"]]["bom"]:
+                    op["log_fault"] = {"at": 1, "exc": exc}
+                else:
+                    for kk in ("newline", "encoding", "io"):
+                        op.pop(kk, None)
+                    op.update({"via": "file", "reader": "simtext"})
+                    op["reader_fault"] = {"at": f.choice([1, 1, 2]), "exc": exc}
     elif sub == "cache_clear":
         knobs["cache_clear"] = sorted({(ci, k) for ci, k, _ in f.sample(all_ops, min(len(all_ops), f.randint(1, 4)))})
         knobs["cache_clear"] = [list(x) for x in knobs["cache_clear"]]
@@ -275,7 +312,7 @@ def execute(plan: dict[str, Any]) -> dict[str, Any]:
     def config_name() -> str:
         return {"none": "history-only" if plan["schedule"].get("mode") == "sequential" else "scheduled",
                 "io": "io", "eio": "eio", "abort": "abort", "cache_clear": "cache-clear",
-                "long": "long-history"}[sub]
+                "long": "long-history", "callerfault": "caller-fault"}[sub]
 
     def vio(symptom: str, detail: str) -> None:
         violations.append({"sig": f"C17/{symptom}/{config_name()}", "detail": detail})
@@ -342,12 +379,29 @@ def execute(plan: dict[str, Any]) -> dict[str, Any]:
                     configured["abort"] = configured.get("abort", 0) + 1
                 if op.get("eio"):
                     configured["eio"] = configured.get("eio", 0) + 1
+                # runtime copy of the op carrying the exception objects of caller-object faults
+                op_rt = op
+                cf_exc: BaseException | None = None
+                cf_kind = None
+                if op.get("sel_fault"):
+                    cf_kind, cf_exc = "select", make_abort_exc(op["sel_fault"]["exc"])
+                    op_rt = {**op, "select": {**op["select"], "fault": {
+                        "at": op["sel_fault"]["at"], "exc_obj": cf_exc}}}
+                elif op.get("reader_fault"):
+                    cf_kind, cf_exc = "reader", make_abort_exc(op["reader_fault"]["exc"])
+                    op_rt = {**op, "reader_fault": {"at": op["reader_fault"]["at"], "exc_obj": cf_exc}}
+                elif op.get("log_fault"):
+                    cf_kind, cf_exc = "log", make_abort_exc(op["log_fault"]["exc"])
+                if cf_kind:
+                    configured["caller_" + cf_kind] = configured.get("caller_" + cf_kind, 0) + 1
                 sched.begin_op(client, k, abort)
+                client.log_fault = ({"at": int(op["log_fault"]["at"]), "exc": cf_exc, "seen": 0,
+                                     "fired": False} if cf_kind == "log" else None)
                 injected = client.abort_exc
                 chart = None
                 err: BaseException | None = None
                 try:
-                    chart = parseop.do_parse(fs, op, data, f"c{ci}o{k}")
+                    chart = parseop.do_parse(fs, op_rt, data, f"c{ci}o{k}")
                 except HarnessError:
                     raise
                 except BaseException as e:  # noqa: BLE001
@@ -356,6 +410,25 @@ def execute(plan: dict[str, Any]) -> dict[str, Any]:
                 n_ops += 1
                 with sched.atomic(client):
                     log = list(client.log)
+                    cf_fired = False
+                    if cf_kind == "log":
+                        cf_fired = bool(client.log_fault and client.log_fault["fired"])
+                        client.log_fault = None
+                    elif cf_kind == "select":
+                        cf_fired = world.selection_fault_fired()
+                    elif cf_kind == "reader":
+                        rd = op_rt["reader_fault"].get("reader")
+                        cf_fired = bool(rd is not None and rd.fault_fired)
+                    if cf_fired:
+                        fk = f"caller_{cf_kind}_raises"
+                        fired[fk] = fired.get(fk, 0) + 1
+                        sched.record("op", ci, k, "caller-fault", cf_kind)
+                        if _judge_faulted(err, cf_exc, chart, ref, probes):
+                            vio("wrong-chart-after-swallowed-fault",
+                                f"client {ci} op {k} text {op['text']}: the caller-supplied {cf_kind} "
+                                f"object raised {type(cf_exc).__name__} during the parse; it was swallowed "
+                                f"and the parse returned a chart that differs from the fresh-process parse")
+                        continue
                     aborted = client.abort_fired_at is not None
                     if aborted:
                         kind = "abort_" + abort["exc"]
@@ -363,21 +436,21 @@ def execute(plan: dict[str, Any]) -> dict[str, Any]:
                         where = client.abort_fired_at.split(":")[-1]
                         probes["abort_in:" + where] = probes.get("abort_in:" + where, 0) + 1
                         sched.record("op", ci, k, "aborted", client.abort_fired_at)
-                        if err is not injected:
-                            got = "returned a chart" if err is None else f"raised {exc_token(err)}"
-                            vio("injected-exception-swallowed",
+                        if _judge_faulted(err, injected, chart, ref, probes):
+                            vio("wrong-chart-after-swallowed-fault",
                                 f"client {ci} op {k} text {op['text']}: {abort['exc']} injected at "
-                                f"{client.abort_fired_at} (op step {abort['at']}) but the parse {got}")
+                                f"{client.abort_fired_at} (op step {abort['at']}) was swallowed and the "
+                                f"parse returned a chart that differs from the fresh-process parse")
                         continue
                     if op.get("eio") and fs.path(f"c{ci}o{k}.chart") in fs.eio_raised:
                         ok = isinstance(err, OSError) and err.errno == errno.EIO
                         fired["eio"] = fired.get("eio", 0) + 1
                         sched.record("op", ci, k, "eio", ok)
-                        if not ok:
-                            got = "returned a chart" if err is None else f"raised {exc_token(err)}"
-                            vio("injected-exception-swallowed",
-                                f"client {ci} op {k} text {op['text']}: EIO injected while reading "
-                                f"but the parse {got}")
+                        if _judge_faulted(err, err if ok else None, chart, ref, probes):
+                            vio("wrong-chart-after-swallowed-fault",
+                                f"client {ci} op {k} text {op['text']}: EIO injected while reading was "
+                                f"swallowed and the parse returned a chart that differs from the "
+                                f"fresh-process parse")
                         continue
                     if err is not None:
                         out: dict[str, Any] = {"kind": "exc", "exc": exc_token(err)}
@@ -464,6 +537,24 @@ def execute(plan: dict[str, Any]) -> dict[str, Any]:
     }
 
 
+def _judge_faulted(err: BaseException | None, injected: BaseException | None, chart: Any,
+                   ref: dict[str, Any], probes: dict[str, int]) -> bool:
+    """Relaxed oracle for an operation during which a fault was injected: it may fail (with the
+    injected exception or any other one), it must never return WRONG data.  True = violation."""
+    if err is not None:
+        if err is not injected:
+            probes["fault_converted_to_other_exception"] = probes.get("fault_converted_to_other_exception", 0) + 1
+        return False
+    try:
+        same = ref.get("kind") == "ok" and rng.digest(observe_chart(chart)) == ref.get("digest")
+    except BaseException:  # noqa: BLE001
+        same = False
+    if same:
+        probes["fault_swallowed_result_correct"] = probes.get("fault_swallowed_result_correct", 0) + 1
+        return False
+    return True
+
+
 def _same_failure(err: BaseException, ref: dict[str, Any]) -> bool:
     return ref.get("kind") == "exc" and ref.get("exc") == exc_token(err)
 
@@ -493,11 +584,12 @@ def shrink(plan: dict[str, Any]):
     # drop faults / knobs
     for ci, ops in enumerate(clients):
         for k, op in enumerate(ops):
-            for fk in ("abort", "io", "eio", "select"):
+            for fk in ("abort", "io", "eio", "log_fault", "sel_fault", "reader_fault", "select"):
                 if op.get(fk) is not None:
                     op2 = {a: b for a, b in op.items() if a != fk}
                     if fk == "select":
                         op2["select"] = None
+                        op2.pop("sel_fault", None)
                     if fk == "io":
                         op2.pop("eio", None)
                     yield {**base, "clients": clients[:ci] + [ops[:k] + [op2] + ops[k + 1:]] + clients[ci + 1:]}
